@@ -10,6 +10,7 @@ for all prior records (= all histories) and, where stated for runs, for all run 
 import StarsimModel.Lemmas.Intervention
 import StarsimModel.Generated.DeliveryConsts
 import Mathlib.Analysis.SpecialFunctions.Pow.Real
+import StarsimModel.Props.C12
 
 namespace StarsimModel.C20
 open StarsimModel.Intervention
@@ -19,7 +20,17 @@ open StarsimModel.Intervention
 /-- the `adj_factor` constants of the checked-out source -/
 def srcAdj : AdjConsts := ⟨Gen.adjThreshold, Gen.adjFineSub, Gen.adjCoarse, Gen.vecPerTimepoint⟩
 
-def gateOf (onTi : Bool) : Gate := if onTi then .onTi else .onTimeObj
+def gateOf : Gen.GateKind → Gate
+  | .simTi => .onTi
+  | .ownTi => .onOwnTi
+  | .timeObj => .onTimeObj
+
+/-- Vaccination and screening test the SIM's step index against the time points (which are positions on the sim's time
+    vector) and look the coverage up with the same index. -/
+theorem C20_gates_on_sim_index : Gen.gateVaccination = .simTi ∧ Gen.gateScreening = .simTi := by decide
+
+/-- Triage: today's `sim.t in timepoints` (never delivers) or the repaired `sim.ti in timepoints`. -/
+theorem C20_triage_gate_variant : Gen.gateTriage = .timeObj ∨ Gen.gateTriage = .simTi := by decide
 
 /-- Obligations on the regenerated constants: the fine-step branch is `int(1/dt) - 1 if dt < 1`. -/
 theorem C20_adj_fine_form : Gen.adjThreshold = 1 ∧ Gen.adjFineSub = 1 := by decide
@@ -36,7 +47,7 @@ theorem C20_capacity_slice : Gen.capSliceOffset = 0 := by decide
 /-- **Vaccination.** Whatever the schedule, gate, stream and prior records: everyone who receives the vaccine was
     returned by the eligibility rule, accepted on the Bernoulli draw at the scheduled per-step probability, and —
     when the rule is absent or a Boolean array — is an active agent. -/
-theorem C20_recipients_eligible (g : Gate) (conv : Rat → Rat) (s : Sched) (v : Vaccine) (ti : Int) (active : List Nat)
+theorem C20_recipients_eligible (g : Gate) (conv : Rat → Rat) (s : Sched) (v : Vaccine) (ti : Clock) (active : List Nat)
     (e : Elig) (draw : Nat → Rat) (r r' : VxRec) (acc : List Nat)
     (h : vxStep g conv s v ti active e draw r = .ok (acc, r')) :
     acc = [] ∨ ∃ el k p, checkEligibility active e = .ok el ∧ gateIndex g s ti = some k ∧ stepProb conv s k = .ok p ∧
@@ -66,14 +77,15 @@ theorem C20_recipients_eligible (g : Gate) (conv : Rat → Rat) (s : Sched) (v :
 /-- A rule that returns uids is taken as given: with a uid that is not active the recipient is not active
     (kernel-checked witness; this is the `partial` boundary of `C20_recipients_eligible`). -/
 theorem C20_uids_rule_counterexample :
-    ∃ acc r', vxStep .onTi id ⟨[0], [1], false, 1⟩ (.leaky 1) 0 [1, 2] (.uids [7]) (fun _ => 0)
+    ∃ acc r', vxStep .onTi id ⟨[0], [1], false, 1⟩ (.leaky 1) ⟨0, 0⟩ [1, 2] (.uids [7]) (fun _ => 0)
         ⟨fun _ => false, fun _ => 0, fun _ => none, fun _ => 1⟩ = .ok (acc, r') ∧ 7 ∈ acc ∧ 7 ∉ [1, 2] := by
   refine ⟨[7], _, rfl, ?_, ?_⟩ <;> decide
 
 /-- **Screening / triage.** Tested agents come from the eligibility result and accepted on their draw. -/
 theorem C20_tested_eligible (hasCov : Bool) (g : Gate) (conv : Rat → Rat) (s : Sched) (prod : DxProduct) (inState : Nat → Nat → Bool)
-    (ti : Int) (active : List Nat) (e : Elig) (draw : Nat → Rat) (pick : Nat → Nat → Nat) (r r' : TestRec) (acc : List Nat)
-    (h : screenStep hasCov g conv s prod inState ti active (checkEligibility active e) draw pick r = .ok (acc, r')) :
+    (ti : Clock) (active : List Nat) (e : Elig) (draw : Nat → Rat) (pick : Nat → Nat → Nat) (r r' : TestRec) (acc : List Nat)
+    (resLen : Option Nat)
+    (h : screenStep hasCov g conv s prod inState ti active (checkEligibility active e) draw pick r resLen = .ok (acc, r')) :
     acc = [] ∨ ∃ el, checkEligibility active e = .ok el ∧ (∀ u ∈ acc, u ∈ el) ∧
       ((∀ l, e ≠ .uids l) → ∀ u ∈ acc, u ∈ active) := by
   unfold screenStep at h
@@ -93,7 +105,10 @@ theorem C20_tested_eligible (hasCov : Bool) (g : Gate) (conv : Rat → Rat) (s :
         cases hasCov with
         | false => simp at h
         | true =>
-          simp only [Bool.not_true, Bool.false_eq_true, ↓reduceIte, Except.ok.injEq, Prod.mk.injEq] at h
+          simp only [Bool.not_true, Bool.false_eq_true, ↓reduceIte] at h
+          by_cases hov : resultsOverrun resLen ti = true
+          · simp [hov] at h
+          simp only [hov, Bool.false_eq_true, ↓reduceIte, Except.ok.injEq, Prod.mk.injEq] at h
           right
           refine ⟨el, rfl, ?_, ?_⟩
           · intro u hu
@@ -151,19 +166,18 @@ theorem C20_treated_eligible (hiOff : Int) (cap : Option Nat) (p : Rat) (rows : 
 
 /-- **Not outside the time points.** On a step that is not one of the schedule's time points nobody receives anything
     and no record changes — vaccination, screening and triage alike; with the `sim.t in …` gate this is every step. -/
-theorem C20_not_outside_timepoints (g : Gate) (conv : Rat → Rat) (s : Sched) (ti : Int) (hti : ti ∉ s.timepoints ∨ g = .onTimeObj) :
+theorem C20_not_outside_timepoints (g : Gate) (conv : Rat → Rat) (s : Sched) (ti : Clock)
+    (hti : (g = .onTi ∧ ti.sim ∉ s.timepoints) ∨ (g = .onOwnTi ∧ ti.own ∉ s.timepoints) ∨ g = .onTimeObj) :
     (∀ v active e draw (r : VxRec), vxStep g conv s v ti active e draw r = .ok ([], r)) ∧
-    (∀ hc prod inState active elig draw pick (r : TestRec),
-        screenStep hc g conv s prod inState ti active elig draw pick r = .ok ([], r)) ∧
+    (∀ hc prod inState active elig draw pick (r : TestRec) resLen,
+        screenStep hc g conv s prod inState ti active elig draw pick r resLen = .ok ([], r)) ∧
     (∀ hc prod inState active elig draw pick,
         triageStep hc g conv s prod inState ti active elig draw pick = .ok ([], List.replicate prod.nres [])) := by
   have hg : gateIndex g s ti = none := by
-    cases g with
-    | onTimeObj => rfl
-    | onTi =>
-      rcases hti with h | h
-      · exact (findFirst_none ti s.timepoints).2 h
-      · cases h
+    rcases hti with ⟨rfl, h⟩ | ⟨rfl, h⟩ | rfl
+    · exact (findFirst_none ti.sim s.timepoints).2 h
+    · exact (findFirst_none ti.own s.timepoints).2 h
+    · rfl
   refine ⟨?_, ?_, ?_⟩
   · intros; simp [vxStep, hg]
   · intros; simp [screenStep, hg]
@@ -206,19 +220,51 @@ def yearOf (y0 dt : Rat) (t : Int) : Rat := y0 + (t : Rat) * dt
 
 def gridYears (y0 dt : Rat) (n : Nat) : List Rat := (List.range n).map (fun (k : Nat) => y0 + (k : Rat) * dt)
 
-theorem findFirst_grid (y0 dt : Rat) (n : Nat) (y : Rat) (k : Nat) (h : findFirst y (gridYears y0 dt n) = some k) :
-    y = y0 + (k : Rat) * dt := by
-  have := findFirst_getElem y _ k h
+theorem findFirstClose_getElem (t : Tol) (y : Rat) (l : List Rat) (k : Nat)
+    (hsep : ∀ z ∈ l, closeTo t z y = true → z = y) : findFirstClose t y l = some k → l[k]? = some y := by
+  induction l generalizing k with
+  | nil => simp [findFirstClose]
+  | cons z zs ih =>
+    simp only [findFirstClose]
+    by_cases h : closeTo t z y = true
+    · simp only [h, ↓reduceIte, Option.some.injEq]
+      intro hk; subst hk
+      simp [hsep z (List.mem_cons_self ..) h]
+    · simp only [h, Bool.false_eq_true, ↓reduceIte, Option.map_eq_some_iff]
+      rintro ⟨j, hj, rfl⟩
+      simpa using ih j (fun w hw => hsep w (List.mem_cons_of_mem _ hw)) hj
+
+theorem findFirstClose_grid (t : Tol) (y0 dt : Rat) (n : Nat) (y : Rat) (k : Nat)
+    (hsep : ∀ z ∈ gridYears y0 dt n, closeTo t z y = true → z = y)
+    (h : findFirstClose t y (gridYears y0 dt n) = some k) : y = y0 + (k : Rat) * dt := by
+  have := findFirstClose_getElem t y _ k hsep h
   simp only [gridYears, List.getElem?_map, Option.map_eq_some_iff] at this
   obtain ⟨a, ha, rfl⟩ := this
   by_cases hk : k < n
   · simp [hk] at ha; subst ha; rfl
   · simp [hk] at ha
 
+/-- the matching of the window years on the grid is unambiguous: only the year itself is "close" to it.
+    (True for exact matching; for the library tolerances it needs a step larger than `atol + rtol·year`.) -/
+def Unambiguous (i : RoutineIn) : Prop :=
+  ∀ w, routineWindow i = some w → ∀ z ∈ i.yearvec,
+    (closeTo i.tols.find z w.1 = true → z = w.1) ∧ (closeTo i.tols.find z w.2 = true → z = w.2)
+
+theorem unambiguous_exact (i : RoutineIn) (h : i.tols = Tols.exact) : Unambiguous i := by
+  intro w _ z _
+  have hc : ∀ a b : Rat, closeTo ⟨0, 0⟩ a b = true → a = b := by
+    intro a b hab
+    simp only [closeTo, zero_mul, add_zero, decide_eq_true_eq, absR] at hab
+    by_cases hlt : a - b < 0
+    · simp only [hlt, ↓reduceIte] at hab; linarith
+    · simp only [hlt, ↓reduceIte] at hab; linarith
+  rw [h]
+  exact ⟨hc z w.1, hc z w.2⟩
+
 /-- Core of the window theorems: if `adj_factor * dt < 1` and `adj_factor ≥ 0`, every time point of an accepted
     routine schedule lies in `[start_year, end_year + 1)`. -/
 theorem window_of_adj (c : AdjConsts) (i : RoutineIn) (y0 : Rat) (n : Nat) (hgrid : i.yearvec = gridYears y0 i.dt n)
-    (hdt : 0 < i.dt) (hadj : ((adjFactor c i.dt : Int) : Rat) * i.dt < 1)
+    (hdt : 0 < i.dt) (hadj : ((adjFactor c i.dt : Int) : Rat) * i.dt < 1) (hun : Unambiguous i)
     (s : Sched) (h : routineInit c i = .ok s) :
     ∃ sy ey, routineWindow i = some (sy, ey) ∧
       ∀ t ∈ s.timepoints, sy ≤ yearOf y0 i.dt t ∧ yearOf y0 i.dt t < ey + 1 := by
@@ -226,53 +272,128 @@ theorem window_of_adj (c : AdjConsts) (i : RoutineIn) (y0 : Rat) (n : Nat) (hgri
   refine ⟨sy, ey, hw, ?_⟩
   intro t ht
   obtain ⟨h1, h2⟩ := (htp t).1 ht
+  have hsepS : ∀ z ∈ gridYears y0 i.dt n, closeTo i.tols.find z sy = true → z = sy :=
+    fun z hz => (hun (sy, ey) hw z (hgrid ▸ hz)).1
+  have hsepE : ∀ z ∈ gridYears y0 i.dt n, closeTo i.tols.find z ey = true → z = ey :=
+    fun z hz => (hun (sy, ey) hw z (hgrid ▸ hz)).2
   unfold routinePoints at hp
   rw [hgrid] at hp
-  cases hs : findFirst sy (gridYears y0 i.dt n) with
-  | none => simp [hs] at hp
-  | some a =>
-    cases he : findFirst ey (gridYears y0 i.dt n) with
-    | none => simp [hs, he] at hp
-    | some b =>
-      simp only [hs, he, Option.some.injEq, Prod.mk.injEq] at hp
-      obtain ⟨rfl, rfl⟩ := hp
-      have hsy := findFirst_grid y0 i.dt n sy a hs
-      have hey := findFirst_grid y0 i.dt n ey b he
-      have h1' : ((a : Int) : Rat) ≤ (t : Rat) := by exact_mod_cast h1
-      have h2' : (t : Rat) ≤ (((b : Int) + adjFactor c i.dt : Int) : Rat) := by exact_mod_cast h2
-      push_cast at h1' h2'
-      unfold yearOf
-      constructor
-      · rw [hsy]; nlinarith
-      · rw [hey]; nlinarith
+  split at hp
+  · cases hp
+  · cases hs : findFirstClose i.tols.find sy (gridYears y0 i.dt n) with
+    | none => simp [hs] at hp
+    | some a =>
+      cases he : findFirstClose i.tols.find ey (gridYears y0 i.dt n) with
+      | none => simp [hs, he] at hp
+      | some b =>
+        simp only [hs, he, Option.some.injEq, Prod.mk.injEq] at hp
+        obtain ⟨rfl, rfl⟩ := hp
+        have hsy := findFirstClose_grid i.tols.find y0 i.dt n sy a hsepS hs
+        have hey := findFirstClose_grid i.tols.find y0 i.dt n ey b hsepE he
+        have h1' : ((a : Int) : Rat) ≤ (t : Rat) := by exact_mod_cast h1
+        have h2' : (t : Rat) ≤ (((b : Int) + adjFactor c i.dt : Int) : Rat) := by exact_mod_cast h2
+        push_cast at h1' h2'
+        unfold yearOf
+        constructor
+        · rw [hsy]; nlinarith
+        · rw [hey]; nlinarith
 
-/-- **Window (spec).** With the repaired constants (`adj_factor = 0` for `dt ≥ 1`), for every step size, grid, window,
-    probability vector: every delivery time point of an accepted routine schedule lies in `[start_year, end_year + 1)`. -/
+/-- **Window (spec).** With the repaired constants (`adj_factor = 0` for `dt ≥ 1`) and exact matching of the window
+    years on the grid, for every step size, grid, window, probability vector: every delivery time point of an accepted
+    routine schedule lies in `[start_year, end_year + 1)`. -/
 theorem C20_window_spec (i : RoutineIn) (y0 : Rat) (n : Nat) (hgrid : i.yearvec = gridYears y0 i.dt n)
-    (hdt : 0 < i.dt) (s : Sched) (h : routineInit .spec i = .ok s) :
+    (hdt : 0 < i.dt) (hex : i.tols = Tols.exact) (s : Sched) (h : routineInit .spec i = .ok s) :
     ∃ sy ey, routineWindow i = some (sy, ey) ∧
       ∀ t ∈ s.timepoints, sy ≤ yearOf y0 i.dt t ∧ yearOf y0 i.dt t < ey + 1 := by
-  apply window_of_adj .spec i y0 n hgrid hdt _ s h
+  apply window_of_adj .spec i y0 n hgrid hdt _ (unambiguous_exact i hex) s h
   unfold adjFactor AdjConsts.spec
   by_cases h1 : i.dt < 1
   · simp only [h1, ↓reduceIte]; exact adj_fine_lt_one i.dt hdt
   · simp [h1]
 
-/-- **Window (partial, the checked-out source).** With the constants regenerated from the source, the same holds
-    whenever `dt < 1` (the hypothesis that excludes the known defect). -/
+/-- The checked-out source has the repaired constants (regenerated on every run). -/
+theorem C20_source_is_spec : srcAdj = AdjConsts.spec := by decide
+
+/-- **Window (the checked-out source, library tolerances).** With the constants regenerated from the source and
+    `np.isclose` / `sc.findfirst` matching, the window holds for every step size provided the matching is unambiguous
+    (the hypothesis that excludes the small-`dt` finding below). -/
 theorem C20_window_partial (i : RoutineIn) (y0 : Rat) (n : Nat) (hgrid : i.yearvec = gridYears y0 i.dt n)
-    (hdt : 0 < i.dt) (hfine : i.dt < 1) (s : Sched) (h : routineInit srcAdj i = .ok s) :
+    (hdt : 0 < i.dt) (hun : Unambiguous i) (s : Sched) (h : routineInit srcAdj i = .ok s) :
     ∃ sy ey, routineWindow i = some (sy, ey) ∧
       ∀ t ∈ s.timepoints, sy ≤ yearOf y0 i.dt t ∧ yearOf y0 i.dt t < ey + 1 := by
-  apply window_of_adj srcAdj i y0 n hgrid hdt _ s h
-  have hc := C20_adj_fine_form
-  unfold adjFactor srcAdj
-  simp only [hc.1, hc.2, hfine, ↓reduceIte]
-  exact adj_fine_lt_one i.dt hdt
+  rw [C20_source_is_spec] at h
+  apply window_of_adj .spec i y0 n hgrid hdt _ hun s h
+  unfold adjFactor AdjConsts.spec
+  by_cases h1 : i.dt < 1
+  · simp only [h1, ↓reduceIte]; exact adj_fine_lt_one i.dt hdt
+  · simp [h1]
+
+/-- **Small steps: counterexample.** With the library tolerances (`rtol = 1e-5` ⇒ ±0.02 around year 2000) and
+    `dt = 1/50`, the start point of the window 2001–2001 is the step BEFORE 2001 (year 2000.98): delivery starts
+    before `start_year`. -/
+theorem C20_window_small_dt_counterexample :
+    ∃ s, routineInit .spec ⟨gridYears 2000 (1/50) 101, 2000, 2002, none, some 2001, some 2001, [1/2], false, 1/50, Tols.lib⟩ = .ok s ∧
+      (49 : Int) ∈ s.timepoints ∧ yearOf 2000 (1/50) 49 < 2001 := by
+  refine ⟨⟨intRange 49 50, List.replicate 50 (1/2), false, 1/50⟩, by decide +kernel, by decide +kernel, by decide +kernel⟩
+
+/-- **Delivery inside the window.** A vaccination step gated on the sim's step index that delivers to anybody, under
+    an accepted routine schedule (repaired constants, unambiguous matching), happens in a year of `[start_year, end_year+1)`. -/
+theorem C20_delivery_in_window (i : RoutineIn) (y0 : Rat) (n : Nat) (hgrid : i.yearvec = gridYears y0 i.dt n)
+    (hdt : 0 < i.dt) (hun : Unambiguous i) (s : Sched) (hs : routineInit .spec i = .ok s)
+    (conv : Rat → Rat) (v : Vaccine) (c : Clock) (active : List Nat) (e : Elig) (draw : Nat → Rat) (r r' : VxRec)
+    (acc : List Nat) (h : vxStep .onTi conv s v c active e draw r = .ok (acc, r')) (hne : acc ≠ []) :
+    ∃ sy ey, routineWindow i = some (sy, ey) ∧ sy ≤ yearOf y0 i.dt c.sim ∧ yearOf y0 i.dt c.sim < ey + 1 := by
+  have hs' : routineInit srcAdj i = .ok s := by rw [C20_source_is_spec]; exact hs
+  obtain ⟨sy, ey, hw, hall⟩ := C20_window_partial i y0 n hgrid hdt hun s hs'
+  refine ⟨sy, ey, hw, hall c.sim ?_⟩
+  by_contra hnot
+  have := (C20_not_outside_timepoints .onTi conv s c (Or.inl ⟨rfl, hnot⟩)).1 v active e draw r
+  rw [this] at h
+  simp only [Except.ok.injEq, Prod.mk.injEq] at h
+  exact hne h.1.symm
+
+/-- **Own step counter: counterexample.** Gating on the module's own step counter while the time points are sim indices
+    delivers outside the window as soon as the module has its own `dt`: window 2004–2008 on a yearly sim, module called
+    every second year — at sim step 10 (year 2010) the module's counter is 5 ∈ timepoints and everybody is vaccinated. -/
+theorem C20_own_ti_gate_counterexample :
+    (match vxStep .onOwnTi id ⟨[4, 5, 6, 7, 8], [1, 1, 1, 1, 1], false, 1⟩ (.leaky 1) ⟨10, 5⟩ [1, 2] .everyone (fun _ => 0)
+        ⟨fun _ => false, fun _ => 0, fun _ => none, fun _ => 1⟩ with
+      | .ok (acc, _) => decide (acc = [1, 2])
+      | .error _ => false) = true ∧ (10 : Int) ∉ [4, 5, 6, 7, 8] ∧ ¬ (yearOf 2000 1 10 < 2008 + 1) := by
+  refine ⟨by decide +kernel, by decide, by decide +kernel⟩
+
+/-- …and is the same as gating on the sim index exactly when the two counters agree (module on the sim's timeline). -/
+theorem C20_own_ti_gate_partial (s : Sched) (c : Clock) (h : c.own = c.sim) :
+    gateIndex .onOwnTi s c = gateIndex .onTi s c := by
+  simp [gateIndex, h]
+
+/-- **Triage as is.** With the `sim.t in timepoints` gate no step ever tests anybody, whatever the configured coverage
+    and however many agents are eligible (the coverage clause fails for triage; vacuous for the other clauses). -/
+theorem C20_triage_asis_never_delivers (hc : Bool) (conv : Rat → Rat) (s : Sched) (prod : DxProduct) (inState : Nat → Nat → Bool)
+    (c : Clock) (active : List Nat) (elig : Except Err (List Nat)) (draw : Nat → Rat) (pick : Nat → Nat → Nat) :
+    triageStep hc (gateOf .timeObj) conv s prod inState c active elig draw pick = .ok ([], List.replicate prod.nres []) :=
+  (C20_not_outside_timepoints .onTimeObj conv s c (Or.inr (Or.inr rfl))).2.2 hc prod inState active elig draw pick
+
+/-- **Campaign × test as is.** `campaign_screening` / `campaign_triage` have no `coverage_dist`: a scheduled delivery
+    step with a probability and a well-typed eligibility result raises AttributeError instead of testing anybody. -/
+theorem C20_campaign_test_asis_raises (g : Gate) (conv : Rat → Rat) (s : Sched) (k : Nat) (p : Rat) (prod : DxProduct)
+    (inState : Nat → Nat → Bool) (active el : List Nat) (draw : Nat → Rat) (pick : Nat → Nat → Nat) (out : List (List Nat))
+    (hp : stepProb conv s k = .ok p) :
+    deliverTest false conv s k prod inState active (.ok el) draw pick out = .error .attr := by
+  simp [deliverTest, hp]
+
+/-- **Screening on its own coarser timeline (as is).** The step writes its results at `sim.ti`: once the sim's index
+    has run past the module's own result arrays, a scheduled delivery step raises IndexError. -/
+theorem C20_screening_results_index_asis (g : Gate) (conv : Rat → Rat) (s : Sched) (prod : DxProduct) (inState : Nat → Nat → Bool)
+    (c : Clock) (active : List Nat) (elig : Except Err (List Nat)) (draw : Nat → Rat) (pick : Nat → Nat → Nat) (r : TestRec)
+    (n : Nat) (hn : (n : Int) ≤ c.sim) (acc : List Nat) (out : List (List Nat)) (k : Nat) (hg : gateIndex g s c = some k)
+    (hd : deliverTest true conv s k prod inState active elig draw pick r.outcomes = .ok (acc, out)) :
+    screenStep true g conv s prod inState c active elig draw pick r (some n) = .error .index := by
+  simp [screenStep, hg, hd, resultsOverrun, hn]
 
 /-- the witness of the known finding: sim 2000–2015, `dt = 1`, window 2005–2010 -/
 def witnessIn : RoutineIn :=
-  ⟨gridYears 2000 1 16, 2000, 2015, none, some 2005, some 2010, [1/2], true, 1⟩
+  ⟨gridYears 2000 1 16, 2000, 2015, none, some 2005, some 2010, [1/2], true, 1, Tols.lib⟩
 
 /-- **Window (as is): counterexample.** With today's constants (`adj_factor = 1` for `dt ≥ 1`) the schedule for the
     window 2005–2010 at `dt = 1` contains step 11, whose year 2011 is not below `end_year + 1`. -/
@@ -333,7 +454,7 @@ theorem C20_spec_prob_total (i : RoutineIn) (s : Sched) (h : routineInit .spec i
     points, four probabilities — the step past `end_year` raises IndexError (the other face of the known finding). -/
 theorem C20_asis_missing_probability :
     ∃ s, routineInit .asis ⟨gridYears 2000 1 16, 2000, 2015, some [2005, 2006, 2007, 2008], none, none,
-        [1/10, 1/5, 2/5, 4/5], true, 1⟩ = .ok s ∧ s.timepoints = [5, 6, 7, 8, 9] ∧ s.prob.length = 4 ∧
+        [1/10, 1/5, 2/5, 4/5], true, 1, Tols.lib⟩ = .ok s ∧ s.timepoints = [5, 6, 7, 8, 9] ∧ s.prob.length = 4 ∧
       stepProb id s 4 = .error .index := by
   refine ⟨⟨[5, 6, 7, 8, 9], [1/10, 1/5, 2/5, 4/5], true, 1⟩, by decide +kernel, rfl, rfl, by decide +kernel⟩
 
@@ -425,14 +546,15 @@ theorem C20_stepProb_uses_conversion (conv : Rat → Rat) (s : Sched) (k : Nat) 
 /-! ### Effects are confined to recipients -/
 
 /-- **Vaccination.** Non-recipients keep every record and their susceptibility; recipients are marked, get one more
-    dose, the time stamp, and their `rel_sus` multiplied by the vaccine's factor. -/
-theorem C20_effects_confined (g : Gate) (conv : Rat → Rat) (s : Sched) (v : Vaccine) (ti : Int) (active : List Nat)
+    dose, the time stamp (the sim's step index), and their `rel_sus` multiplied by the vaccine's factor (for the
+    all-or-nothing vaccine: the binomial variate at the recipient's position among the accepted). -/
+theorem C20_effects_confined (g : Gate) (conv : Rat → Rat) (s : Sched) (v : Vaccine) (ti : Clock) (active : List Nat)
     (e : Elig) (draw : Nat → Rat) (r r' : VxRec) (acc : List Nat)
     (h : vxStep g conv s v ti active e draw r = .ok (acc, r')) :
     (∀ u, u ∉ acc → r'.vaccinated u = r.vaccinated u ∧ r'.nDoses u = r.nDoses u ∧ r'.tiVacc u = r.tiVacc u ∧
         r'.relSus u = r.relSus u) ∧
-    (∀ u ∈ acc, r'.vaccinated u = true ∧ r'.nDoses u = r.nDoses u + 1 ∧ r'.tiVacc u = some ti ∧
-        r'.relSus u = r.relSus u * v.factor u) := by
+    (∀ u ∈ acc, r'.vaccinated u = true ∧ r'.nDoses u = r.nDoses u + 1 ∧ r'.tiVacc u = some ti.sim ∧
+        r'.relSus u = r.relSus u * v.factor (posOf u acc)) := by
   unfold vxStep at h
   cases hg : gateIndex g s ti with
   | none =>
@@ -494,8 +616,9 @@ theorem C20_dx_outcomes (nres : Nat) (hn : 0 < nres) (rows : List DxRow) (inStat
 
 /-- **Screening.** Non-recipients keep their screening records. -/
 theorem C20_screening_confined (hasCov : Bool) (g : Gate) (conv : Rat → Rat) (s : Sched) (prod : DxProduct) (inState : Nat → Nat → Bool)
-    (ti : Int) (active : List Nat) (elig : Except Err (List Nat)) (draw : Nat → Rat) (pick : Nat → Nat → Nat) (r r' : TestRec)
-    (acc : List Nat) (h : screenStep hasCov g conv s prod inState ti active elig draw pick r = .ok (acc, r')) :
+    (ti : Clock) (active : List Nat) (elig : Except Err (List Nat)) (draw : Nat → Rat) (pick : Nat → Nat → Nat) (r r' : TestRec)
+    (acc : List Nat) (resLen : Option Nat)
+    (h : screenStep hasCov g conv s prod inState ti active elig draw pick r resLen = .ok (acc, r')) :
     ∀ u, u ∉ acc → r'.screened u = r.screened u ∧ r'.screens u = r.screens u ∧ r'.tiScreened u = r.tiScreened u := by
   unfold screenStep at h
   cases hg : gateIndex g s ti with
@@ -509,7 +632,10 @@ theorem C20_screening_confined (hasCov : Bool) (g : Gate) (conv : Rat → Rat) (
     | error err => simp [hd] at h
     | ok q =>
       obtain ⟨a, o⟩ := q
-      simp only [hd, Except.ok.injEq, Prod.mk.injEq] at h
+      simp only [hd] at h
+      by_cases hov : resultsOverrun resLen ti = true
+      · simp [hov] at h
+      simp only [hov, Bool.false_eq_true, ↓reduceIte, Except.ok.injEq, Prod.mk.injEq] at h
       obtain ⟨rfl, rfl⟩ := h
       intro u hu; simp [hu]
 
@@ -549,12 +675,30 @@ theorem C20_treatment_confined (hiOff : Int) (cap : Option Nat) (p : Rat) (rows 
   · rfl
   · exact (C20_tx_confined rows active _ effDraw st.flags).1 u (Or.inl hu) s
 
+/-- **`syph_treatment` step.** Its extra write clears `infected` for exactly the treated; everything else is the
+    `treat_num` step: agents not treated in this step keep all their states, the treated are the `treat_num` treated. -/
+theorem C20_syph_treatment_confined (clear : Nat) (hiOff : Int) (cap : Option Nat) (p : Rat) (rows : List TxRow)
+    (active eligAdd eligNow : List Nat) (draw : Nat → Rat) (effDraw : Nat → Nat → Rat) (st : TreatState) :
+    let out := syphTreatStep clear hiOff cap p rows active eligAdd eligNow draw effDraw st
+    out.1 = (treatNumStep hiOff cap p rows active eligAdd eligNow draw effDraw st).1 ∧
+    (∀ u, u ∉ out.1 → ∀ s, out.2.flags s u = st.flags s u) ∧ (∀ u ∈ out.1, out.2.flags clear u = false) ∧
+    out.2.queue = (treatNumStep hiOff cap p rows active eligAdd eligNow draw effDraw st).2.queue := by
+  refine ⟨rfl, ?_, ?_, rfl⟩
+  · intro u hu s
+    have hu' : u ∉ (treatNumStep hiOff cap p rows active eligAdd eligNow draw effDraw st).1 := hu
+    have := C20_treatment_confined hiOff cap p rows active eligAdd eligNow draw effDraw st u hu' s
+    simp only [syphTreatStep, hu', and_false, ↓reduceIte]
+    exact this
+  · intro u hu
+    have hu' : u ∈ (treatNumStep hiOff cap p rows active eligAdd eligNow draw effDraw st).1 := hu
+    simp [syphTreatStep, hu']
+
 /-! ### A fully effective vaccine -/
 
 /-- **Fully effective vaccine.** Recipients of a vaccine of efficacy 1 (leaky or all-or-nothing) have relative
     susceptibility 0 after the step, whatever it was before. -/
 theorem C20_full_vaccine_zero (g : Gate) (conv : Rat → Rat) (s : Sched) (v : Vaccine)
-    (hv : v = .leaky 1 ∨ ∃ f, v = .allOrNothing 1 f) (ti : Int) (active : List Nat)
+    (hv : v = .leaky 1 ∨ ∃ f, v = .allOrNothing 1 f) (ti : Clock) (active : List Nat)
     (e : Elig) (draw : Nat → Rat) (r r' : VxRec) (acc : List Nat)
     (h : vxStep g conv s v ti active e draw r = .ok (acc, r')) : ∀ u ∈ acc, r'.relSus u = 0 := by
   intro u hu
@@ -574,7 +718,7 @@ theorem C20_zero_persists (g : Gate) (conv : Rat → Rat) (s : Sched) (v : Vacci
   | cons x xs ih =>
     intro r r' accs h u hu
     simp only [vxRun] at h
-    cases h1 : vxStep g conv s v x.ti x.active x.elig x.draw r with
+    cases h1 : vxStep g conv s v x.clock x.active x.elig x.draw r with
     | error e => simp [h1] at h
     | ok q =>
       obtain ⟨acc, r1⟩ := q
@@ -586,7 +730,7 @@ theorem C20_zero_persists (g : Gate) (conv : Rat → Rat) (s : Sched) (v : Vacci
         simp only [h2, Except.ok.injEq, Prod.mk.injEq] at h
         rw [← h.2]
         apply ih r1 r2 accs2 h2 u
-        have hc := C20_effects_confined g conv s v x.ti x.active x.elig x.draw r r1 acc h1
+        have hc := C20_effects_confined g conv s v x.clock x.active x.elig x.draw r r1 acc h1
         by_cases hm : u ∈ acc
         · rw [(hc.2 u hm).2.2.2, hu]; simp
         · rw [(hc.1 u hm).2.2.2]; exact hu
@@ -601,7 +745,7 @@ theorem C20_full_vaccine_uninfectable (betaTrans draw : Rat) (hd : 0 ≤ draw) :
 theorem C20_history_recipients (g : Gate) (conv : Rat → Rat) (s : Sched) (v : Vaccine) (hist : List StepIn) :
     ∀ (r r' : VxRec) (accs : List (List Nat)), vxRun g conv s v hist r = .ok (accs, r') →
       List.Forall₂ (fun (x : StepIn) acc => acc = [] ∨ ∃ el, checkEligibility x.active x.elig = .ok el ∧ (∀ u ∈ acc, u ∈ el) ∧
-        x.ti ∈ s.timepoints) hist accs := by
+        (g = .onTi → x.clock.sim ∈ s.timepoints) ∧ (g = .onOwnTi → x.clock.own ∈ s.timepoints)) hist accs := by
   induction hist with
   | nil =>
     intro r r' accs h
@@ -610,7 +754,7 @@ theorem C20_history_recipients (g : Gate) (conv : Rat → Rat) (s : Sched) (v : 
   | cons x xs ih =>
     intro r r' accs h
     simp only [vxRun] at h
-    cases h1 : vxStep g conv s v x.ti x.active x.elig x.draw r with
+    cases h1 : vxStep g conv s v x.clock x.active x.elig x.draw r with
     | error e => simp [h1] at h
     | ok q =>
       obtain ⟨acc, r1⟩ := q
@@ -622,28 +766,91 @@ theorem C20_history_recipients (g : Gate) (conv : Rat → Rat) (s : Sched) (v : 
         simp only [h2, Except.ok.injEq, Prod.mk.injEq] at h
         rw [← h.1]
         refine List.Forall₂.cons ?_ (ih r1 r2 accs2 h2)
-        rcases C20_recipients_eligible g conv s v x.ti x.active x.elig x.draw r r1 acc h1 with h0 | ⟨el, k, p, he, hg, _, hmem, _⟩
+        rcases C20_recipients_eligible g conv s v x.clock x.active x.elig x.draw r r1 acc h1 with h0 | ⟨el, k, p, he, hg, _, hmem, _⟩
         · exact Or.inl h0
         · right
-          refine ⟨el, he, fun u hu => (hmem u hu).1, ?_⟩
-          cases g with
-          | onTimeObj => simp [gateIndex] at hg
-          | onTi =>
+          refine ⟨el, he, fun u hu => (hmem u hu).1, ?_, ?_⟩
+          · rintro rfl
             by_contra hnot
-            have := (findFirst_none x.ti s.timepoints).2 hnot
+            have := (findFirst_none x.clock.sim s.timepoints).2 hnot
             simp [gateIndex, this] at hg
+          · rintro rfl
+            by_contra hnot
+            have := (findFirst_none x.clock.own s.timepoints).2 hnot
+            simp [gateIndex, this] at hg
+
+/-- **Dose records.** Over every vaccination history the dose counter of an agent is its initial value plus the number
+    of steps in which the agent was a recipient; `vaccinated` is true exactly if it was before or the agent was a recipient. -/
+theorem C20_doses_count (g : Gate) (conv : Rat → Rat) (s : Sched) (v : Vaccine) (hist : List StepIn) :
+    ∀ (r r' : VxRec) (accs : List (List Nat)), vxRun g conv s v hist r = .ok (accs, r') →
+      ∀ u, r'.nDoses u = r.nDoses u + (accs.filter (fun a => decide (u ∈ a))).length ∧
+           (r'.vaccinated u = true ↔ (r.vaccinated u = true ∨ ∃ a ∈ accs, u ∈ a)) := by
+  induction hist with
+  | nil =>
+    intro r r' accs h u
+    simp only [vxRun, Except.ok.injEq, Prod.mk.injEq] at h
+    rw [← h.1, ← h.2]; simp
+  | cons x xs ih =>
+    intro r r' accs h u
+    simp only [vxRun] at h
+    cases h1 : vxStep g conv s v x.clock x.active x.elig x.draw r with
+    | error e => simp [h1] at h
+    | ok q =>
+      obtain ⟨acc, r1⟩ := q
+      simp only [h1] at h
+      cases h2 : vxRun g conv s v xs r1 with
+      | error e => simp [h2] at h
+      | ok q2 =>
+        obtain ⟨accs2, r2⟩ := q2
+        simp only [h2, Except.ok.injEq, Prod.mk.injEq] at h
+        rw [← h.1, ← h.2]
+        obtain ⟨ihd, ihv⟩ := ih r1 r2 accs2 h2 u
+        have hc := C20_effects_confined g conv s v x.clock x.active x.elig x.draw r r1 acc h1
+        by_cases hm : u ∈ acc
+        · have h3 := hc.2 u hm
+          constructor
+          · rw [ihd, h3.2.1]; simp [hm]; omega
+          · rw [ihv, h3.1]; simp [hm]
+        · have h3 := hc.1 u hm
+          constructor
+          · rw [ihd, h3.2.1]; simp [hm]
+          · rw [ihv, h3.1]; simp [hm]
+
+open StarsimModel.Transmission StarsimModel.C12 in
+/-- **Uninfectable (through C12's transmission kernel).** Let a vaccination step of an efficacy-1 vaccine have produced
+    the records `r'`. In any later transmission step of the disease whose relative susceptibilities are the recorded
+    ones, whatever the networks, betas, other factors and (non-negative) random numbers, no recipient is infected. -/
+theorem C20_full_vaccine_never_infected (g : Gate) (conv : Rat → Rat) (s : Sched) (v : Vaccine)
+    (hv : v = .leaky 1 ∨ ∃ f, v = .allOrNothing 1 f) (c : Clock) (active : List Nat)
+    (e : Elig) (draw : Nat → Rat) (r r' : VxRec) (acc : List Nat)
+    (h : vxStep g conv s v c active e draw r = .ok (acc, r'))
+    (d : DState) (hd : ∀ u, d.relSus u = r'.relSus u) (nets : List Net) (hr : NonnegRand nets) :
+    ∀ ev ∈ infect d nets, ev.target ∉ acc := by
+  intro ev hev hmem
+  have hz := C20_full_vaccine_zero g conv s v hv c active e draw r r' acc h ev.target hmem
+  exact (C12_target_susceptible hr hev).2 (by rw [hd, hz])
+
+/-- **Coverage conversion uses the sim's `dt`: counterexample for a module on its own timeline.** An intervention
+    called every 2 years in a yearly sim converts annual coverage 1/2 with `dt = 1` (per-call acceptance 1/2), whereas
+    the acceptance per own step that compounds to the annual coverage is 3/4. -/
+theorem C20_coverage_own_dt_counterexample : stepProbR (1/2) 1 = 1/2 ∧ stepProbR (1/2) 2 = 3/4 := by
+  constructor
+  · simp [stepProbR]
+  · unfold stepProbR
+    rw [show (2 : ℝ) = ((2 : ℕ) : ℝ) by norm_num, Real.rpow_natCast]
+    norm_num
 
 /-! ### Non-vacuity: concrete states meeting the hypotheses -/
 
 /-- a delivering vaccination step (time point 3 of the schedule; of the active agents 1, 2, 5 the rule excludes 2,
     agent 5 declines on its draw, agent 1 is vaccinated and fully protected) -/
-example : (match vxStep .onTi id ⟨[2, 3, 4], [1/2, 1/2, 1/2], false, 1⟩ (.leaky 1) 3 [1, 2, 5] (.mask (fun u => u != 2))
+example : (match vxStep .onTi id ⟨[2, 3, 4], [1/2, 1/2, 1/2], false, 1⟩ (.leaky 1) ⟨3, 3⟩ [1, 2, 5] (.mask (fun u => u != 2))
       (fun u => if u = 5 then 9/10 else 1/10) ⟨fun _ => false, fun _ => 0, fun _ => none, fun _ => 1⟩ with
     | .ok (acc, r) => decide (acc = [1]) && decide (r.relSus 1 = 0) && decide (r.relSus 5 = 1) && decide (r.nDoses 1 = 1)
     | .error _ => false) = true := by decide +kernel
 
 /-- hypotheses of `C20_window_spec` / `C20_window_partial`: a half-year grid and an accepted window -/
-example : routineInit .spec ⟨gridYears 2000 (1/2) 11, 2000, 2005, none, some 2001, some 2003, [3/10], true, 1/2⟩ =
+example : routineInit .spec ⟨gridYears 2000 (1/2) 11, 2000, 2005, none, some 2001, some 2003, [3/10], true, 1/2, Tols.exact⟩ =
     .ok ⟨[2, 3, 4, 5, 6, 7], List.replicate 6 (3/10), true, 1/2⟩ := by decide +kernel
 
 /-- a capacity-limited step: queue [4,5,6], capacity 2, everyone eligible: 4 and 5 are treated, 6 waits -/
